@@ -489,9 +489,7 @@ def main(argv):
         "coverage": cov, "assumptions": spec.get("assumptions", []),
         "wall_s": round(time.time() - t0, 2), "violations": len(violations),
     }
-    os.makedirs(os.path.join(VERIF, "evidence"), exist_ok=True)
-    with open(os.path.join(VERIF, "evidence", pid + ".json"), "w") as f:
-        json.dump(ev, f, indent=1)
+    write_evidence(pid, ev)
     shutil.rmtree(rundir, ignore_errors=True)
     for path, suffix in violations:
         print(f"VIOLATION property={pid} replay={path}{suffix}")
@@ -504,6 +502,43 @@ def main(argv):
     noted = f", {len(foreign)} item(s) noted for other properties ({foreign_path})" if foreign else ""
     log(f"{pid} {tier}: {discharged}/{obligations} obligations discharged, {compared} op lines agree with the model, {len(oracle)} oracle failures (all listed){noted}, {time.time()-t0:.1f}s")
     return 0
+
+
+EVIDENCE_STR_MAX = 4000        # longest string kept verbatim in an evidence file
+EVIDENCE_FILE_MAX = 400_000    # the evidence file is a record to be read, not a dump
+
+
+def clip(v, limit=EVIDENCE_STR_MAX):
+    """evidence is read by people and by tools with a size cap: a string longer than `limit` (a multi-megabyte
+    request body in a replay line, a goroutine dump) is kept as head + length + sha256 of the whole, never verbatim.
+    The full text of anything that is REPORTED lives in the replay file, which is not clipped."""
+    if isinstance(v, str):
+        if len(v) <= limit:
+            return v
+        return v[:limit] + f" ...[clipped: {len(v)} chars in all, sha256 {hashlib.sha256(v.encode('utf-8', 'replace')).hexdigest()}]"
+    if isinstance(v, list):
+        return [clip(x, limit) for x in v]
+    if isinstance(v, dict):
+        return {k: clip(x, limit) for k, x in v.items()}
+    return v
+
+
+def write_evidence(pid, ev):
+    os.makedirs(os.path.join(VERIF, "evidence"), exist_ok=True)
+    path = os.path.join(VERIF, "evidence", pid + ".json")
+    limit = EVIDENCE_STR_MAX
+    while True:
+        text = json.dumps(clip(ev, limit), indent=1)
+        if len(text.encode()) <= EVIDENCE_FILE_MAX or limit <= 250:
+            break
+        limit //= 2
+    json.loads(text)
+    tmp = path + f".tmp{os.getpid()}"
+    with open(tmp, "w") as f:
+        f.write(text)
+        f.flush()
+        os.fsync(f.fileno())
+    os.replace(tmp, path)
 
 
 def replay(pid, spec, path):
